@@ -954,6 +954,9 @@ class Oracle:
 
 def build_domain(sc):
     dom = [[float(lo), float(hi)] for lo, hi in sc["domain"]]
+    if sc.get("int_bounds"):
+        # the README's way of writing a box: [[0, 1]] with Python ints
+        dom = [[int(lo) if float(lo).is_integer() else lo, int(hi) if float(hi).is_integer() else hi] for lo, hi in dom]
     if sc.get("aliased_rows") and all(r == dom[0] for r in dom):
         # the way a user writes a hypercube: [[lo, hi]] * d  (every row is the same list object)
         return [dom[0]] * len(dom)
